@@ -85,10 +85,14 @@ struct Rec {
 }
 
 /// What the harness knows of the current case: actor index -> real cell.
+type PidLog = Arc<Mutex<Vec<(bool, ractor::ActorId)>>>;
+
 #[derive(Default)]
 struct World {
     recs: BTreeMap<u64, Rec>,
     cluster: bool,
+    /// cluster build: an actor subscribed with `pid_registry::monitor`, and what it was told
+    pidmon: Option<(ActorCell, PidLog)>,
 }
 
 impl World {
@@ -133,7 +137,24 @@ impl World {
                 .collect::<Vec<_>>()
                 .join(",")
         };
-        format!("names={ns} pids={ps} actors={acts}")
+        let ev = match &self.pidmon {
+            None => "x".to_string(),
+            Some((_, log)) => {
+                let evs: Vec<_> = std::mem::take(&mut *log.lock().unwrap());
+                if evs.is_empty() {
+                    "-".to_string()
+                } else {
+                    evs.iter()
+                        .map(|(spawn, id)| {
+                            let k = self.recs.iter().find(|(_, r)| r.cell.get_id() == *id).map(|(k, _)| *k).unwrap_or(999);
+                            format!("{}{k}", if *spawn { "S" } else { "T" })
+                        })
+                        .collect::<Vec<_>>()
+                        .join(",")
+                }
+            }
+        };
+        format!("names={ns} pids={ps} actors={acts} ev={ev}")
     }
 
     #[cfg(not(feature = "cluster"))]
@@ -185,8 +206,15 @@ async fn exec(w: &mut World, log: &mut Log, st: &mut Stats, line: &str) {
             }
             quiesce().await;
             quiesce().await;
+            if let Some((c, _)) = w.pidmon.take() {
+                c.kill();
+                quiesce().await;
+            }
             let cluster = line.contains("pid=1");
-            *w = World { recs: BTreeMap::new(), cluster };
+            *w = World { recs: BTreeMap::new(), cluster, pidmon: None };
+            if line.contains("ev=1") {
+                w.pidmon = spawn_pidmon().await;
+            }
             st.bump("cases");
             "ok".into()
         }
@@ -294,6 +322,45 @@ async fn exec(w: &mut World, log: &mut Log, st: &mut Stats, line: &str) {
 }
 
 #[cfg(not(feature = "cluster"))]
+async fn spawn_pidmon() -> Option<(ActorCell, PidLog)> {
+    None
+}
+
+/// An actor that subscribes to the pid registry's lifecycle events and logs them.
+#[cfg(feature = "cluster")]
+struct PidMon {
+    log: PidLog,
+}
+
+#[cfg(feature = "cluster")]
+impl Actor for PidMon {
+    type Msg = ();
+    type State = ();
+    type Arguments = ();
+    async fn pre_start(&self, _: ActorRef<()>, _: ()) -> Result<(), ActorProcessingErr> {
+        Ok(())
+    }
+    async fn handle_supervisor_evt(&self, _: ActorRef<()>, ev: SupervisionEvent, _: &mut ()) -> Result<(), ActorProcessingErr> {
+        if let SupervisionEvent::PidLifecycleEvent(e) = ev {
+            match e {
+                registry::PidLifecycleEvent::Spawn(c) => self.log.lock().unwrap().push((true, c.get_id())),
+                registry::PidLifecycleEvent::Terminate(c) => self.log.lock().unwrap().push((false, c.get_id())),
+            }
+        }
+        Ok(())
+    }
+}
+
+#[cfg(feature = "cluster")]
+async fn spawn_pidmon() -> Option<(ActorCell, PidLog)> {
+    let log: PidLog = Arc::new(Mutex::new(Vec::new()));
+    let (a, _) = Actor::spawn(None, PidMon { log: log.clone() }, ()).await.ok()?;
+    quiesce().await;
+    registry::pid_registry::monitor(a.get_cell());
+    Some((a.get_cell(), log))
+}
+
+#[cfg(not(feature = "cluster"))]
 async fn spawn_proxy(_w: &mut World, _st: &mut Stats, _k: u64, _n: Option<u64>) -> String {
     "unsupported".into()
 }
@@ -348,9 +415,17 @@ fn lookup_pid(w: &World, st: &mut Stats, k: u64) -> String {
     }
 }
 
+fn case_line(cluster: bool) -> String {
+    if cluster {
+        "case pid=1 ev=1".to_string()
+    } else {
+        "case pid=0".to_string()
+    }
+}
+
 /// One generated E-LTS case.
 async fn gen_case(w: &mut World, log: &mut Log, st: &mut Stats, rng: &mut Rng, cluster: bool, len: u64) {
-    exec(w, log, st, &format!("case pid={}", cluster as u8)).await;
+    exec(w, log, st, &case_line(cluster)).await;
     let mut next: u64 = 0;
     let n_names = rng.range(1, 3);
     if cluster {
@@ -446,7 +521,7 @@ async fn replay_file(w: &mut World, log: &mut Log, st: &mut Stats, path: &str, c
         }
         if !started {
             // a shrunk segment may have lost its case line
-            exec(w, log, st, &format!("case pid={}", cluster as u8)).await;
+            exec(w, log, st, &case_line(cluster)).await;
             started = true;
         }
         exec(w, log, st, line).await;
@@ -482,7 +557,7 @@ pub fn main_with(cluster: bool) {
             }
         }
         // leave nothing behind
-        exec(&mut w, &mut log, &mut st, &format!("case pid={}", cluster as u8)).await;
+        exec(&mut w, &mut log, &mut st, &case_line(cluster)).await;
     });
     if !only_replay && mode == "thr" {
         for _ in 0..cases {
@@ -491,7 +566,7 @@ pub fn main_with(cluster: bool) {
         }
         // free-running races (no schedule control): support for the atomic-entry axiom
         let rounds = args.u64("stress", 150);
-        log.rec("case pid=0", "ok | names=- pids=x actors=-");
+        log.rec("case pid=0", "ok | names=- pids=x actors=- ev=x");
         for i in 0..rounds {
             thr::race_round(&mut log, &mut st, i, 4);
         }
@@ -661,7 +736,7 @@ mod thr {
         st.bump("race_rounds");
         log.rec(
             format!("race {t}"),
-            format!("winners={} agree={} free={} | names=- pids=x actors=-", winners.len(), agree as u8, free as u8),
+            format!("winners={} agree={} free={} | names=- pids=x actors=- ev=x", winners.len(), agree as u8, free as u8),
         );
     }
 
@@ -706,7 +781,7 @@ mod thr {
                 }
             }
             if hung {
-                log.rec("skip hung", "thread-hung | names=- pids=x actors=-");
+                log.rec("skip hung", "thread-hung | names=- pids=x actors=- ev=x");
                 for c in &ctls {
                     c.release();
                 }
